@@ -72,7 +72,7 @@ def _handle_flags(ctx, trace, flagged):
     bad_store = []
     for rec in flagged:
         line = trace[rec["l"] - 1]
-        what = "scripted" if line["tier"] == "a" else "real-store"
+        what = {"a": "scripted", "b": "real-store", "p": "store-probe"}[line["tier"]]
         for fl in rec["flags"]:
             ev = line["events"][fl["ev"] - 1]
             witness = {"tier": line["tier"], "case": line["id"], "rules": line["rules"], "call": ev,
@@ -91,7 +91,8 @@ def _handle_flags(ctx, trace, flagged):
                               (what, line["id"], json.dumps({k: ev[k] for k in ("op", "key", "vid", "ifmatch", "class", "upload")}),
                                ev["res"], fl["due"], fl["keeps"], fl["expwins"], json.dumps(line["rules"])[:900]))
     if bad_store:
-        raise vlib.Infra("scripted store and model store disagree (harness bug): %s" % json.dumps(bad_store[0])[:1500])
+        raise vlib.Infra("the model store (Apply) disagrees with the scripted store / the probed real store: the scripted tier "
+                         "would not be faithful: %s" % json.dumps(bad_store[0])[:1500])
 
 
 def run(ctx):
@@ -102,7 +103,7 @@ def run(ctx):
     # ... and the invariants are not vacuous: each listed deviation must break them in the model
     for tag, sz in (("D-C25-etag-guard", "small"), ("D-C25-newer-noncurrent-plus-one", "small"),
                     ("D-C25-noncurrent-order", "full")):
-        if tag != "D-C25-etag-guard" and ctx.quick():
+        if tag == "D-C25-noncurrent-order" and ctx.quick():
             continue
         r = ctx.tlc("Lifecycle", "Lifecycle.MC.cfg", workers=4, timeout=900,
                     subst={"MCSize": '"%s"' % sz, "Deviations": '{"%s"}' % tag})
@@ -117,7 +118,7 @@ def run(ctx):
     comps = {}
     for c in g.printed:
         comps.setdefault(c["kind"], []).append(c)
-    for k in ("hist", "rule", "clock", "ups", "race", "prog", "rrules"):
+    for k in ("hist", "rule", "clock", "ups", "race", "prog", "rrules", "probe"):
         if not comps.get(k):
             raise vlib.Infra("no components of kind %s generated" % k)
         comps[k].sort(key=lambda c: json.dumps(c, sort_keys=True))
@@ -127,7 +128,7 @@ def run(ctx):
     drv = ctx.gobuild("lifecycle")
 
     # 3a. scripted store
-    na = ctx.pick(2000, 40000)
+    na = ctx.pick(4000, 40000)
     cases_a = _compose_a(comps, rng, na)
     vlib.write_ndjson(ctx.path("cases_a.ndjson"), cases_a)
     p = ctx.run([drv, "a", ctx.path("cases_a.ndjson"), ctx.path("trace_a.ndjson")], timeout=900)
@@ -144,8 +145,10 @@ def run(ctx):
     # 3b. real store
     allb = [(p_["prog"], r_["rules"]) for p_ in comps["prog"] for r_ in comps["rrules"]]
     rng.shuffle(allb)
-    allb = allb[:ctx.pick(150, len(allb))]
+    allb = allb[:ctx.pick(300, len(allb))]
     cases_b = [{"id": i + 1, "tier": "b", "prog": pr, "rules": ru} for i, (pr, ru) in enumerate(allb)]
+    # store probes: "list, replace, guarded call" replayed by the driver on the real store, compared with the model store
+    cases_b += [dict(c["probe"], id=len(cases_b) + i + 1, tier="p") for i, c in enumerate(comps["probe"])]
     vlib.write_ndjson(ctx.path("cases_b.ndjson"), cases_b)
     import os
     os.makedirs(ctx.path("realdb"), exist_ok=True)
@@ -166,9 +169,16 @@ def run(ctx):
     for r in corrupt["rules"]:
         r["on"] = False
     trace = trace_a + trace_b + [corrupt]
-    vlib.write_ndjson(ctx.path("trace.ndjson"), trace)
-    n_all, flagged = ctx.validate_cases("LifecycleTrace", "Lifecycle.Trace.cfg", ctx.path("trace.ndjson"),
-                                        subst={"Deviations": dev}, timeout=2400, xss="256m")
+    n_all, flagged, chunk = 0, [], 6000      # chunks keep TLC's in-memory trace small
+    for off in range(0, len(trace), chunk):
+        f = ctx.path("trace-%d.ndjson" % off)
+        vlib.write_ndjson(f, trace[off:off + chunk])
+        n, fl = ctx.validate_cases("LifecycleTrace", "Lifecycle.Trace.cfg", f, subst={"Deviations": dev},
+                                   timeout=2400, xss="256m")
+        n_all += n
+        for r in fl:
+            r["l"] += off
+        flagged += fl
     ctx.traces -= 1
     self_flags = [r for r in flagged if r["l"] == len(trace)]
     flagged = [r for r in flagged if r["l"] != len(trace)]
@@ -180,6 +190,9 @@ def run(ctx):
     kinds = {}
     acted_cases = 0
     races_fired = 0
+    probes = [t for t in trace_b if t["tier"] == "p"]
+    trace_b = [t for t in trace_b if t["tier"] == "b"]
+    ctx.extra["store_probes_matching_model_store"] = len(probes)
     for t in trace_a + trace_b:
         acted = False
         for e in t["events"]:
@@ -204,7 +217,8 @@ def run(ctx):
             raise vlib.Infra("no %s call was exercised in tier %s: the check would be vacuous" % (need[1], need[0]))
     if races_fired == 0:
         raise vlib.Infra("no replacement between listing and call was exercised")
-    for t in trace_a[:2] + trace_b[:1]:
+    acting = lambda ts: [t for t in ts if any(e["e"] == "call" and e["res"] == "ok" for e in t["events"])]
+    for t in acting(trace_a)[:2] + acting(trace_b)[:1]:
         ctx.sample({"id": t["id"], "tier": t["tier"], "events": [e for e in t["events"] if e["e"] != "state"][:6]})
 
     _handle_flags(ctx, trace, flagged)
